@@ -123,6 +123,16 @@ func ParseScalarPropertyType(str string) ScalarPropertyType {
 	panic(fmt.Errorf("unrecognized type %s", str))
 }
 
+// Precision ascii numbers of a property are parsed with: single precision for
+// float properties (what the binary formats hold), full precision for
+// everything else, so double and large int values arrive unrounded.
+func asciiBitSize(t ScalarPropertyType) int {
+	if t == Float {
+		return 32
+	}
+	return 64
+}
+
 func readPlyProperty(contents []string) (Property, error) {
 	if strings.ToLower(contents[1]) == "list" {
 		if len(contents) != 5 {
